@@ -38,7 +38,7 @@ LANGS = ['darr', 'idl', 'julia_ver0', 'julia_ver1', 'mathematica', 'matlab', 'ma
 FOREIGN = ['idl', 'julia_ver0', 'julia_ver1', 'mathematica', 'matlab', 'maple', 'R', 'scilab']
 SHAPES = [(5,), (1,), (2, 3), (3, 1), (1, 4), (2, 3, 4), (4, 1, 2), (2, 3, 4, 5), (1, 2, 1, 3)]
 PATHMODES = ['rel', 'base', 'abs']
-MUST_HIT = ['after-history-on-live-handle', 'churn:ask-trunc-ask', 'churn:ask-append-ask', 'churn:stale-handle', 'path:base-via-symlink-dotdot', 'path:via-symlink-dotdot', 'path:handle-opened-by-relative-path'] + ['lang:' + l for l in LANGS] + ['path:' + p for p in PATHMODES] + ['offer-table', 'withheld', 'empty-array', 'rank:1', 'rank:2',
+MUST_HIT = ['after-history-on-live-handle', 'churn:ask-trunc-ask', 'churn:ask-append-ask', 'path:base-via-symlink-dotdot', 'path:via-symlink-dotdot', 'path:handle-opened-by-relative-path'] + ['lang:' + l for l in LANGS] + ['path:' + p for p in PATHMODES] + ['offer-table', 'withheld', 'empty-array', 'rank:1', 'rank:2',
                                                                               'rank:3', 'rank:4', 'complex', 'float16', 'bigendian']
 COLUMN = {'IDL': ['idl'], 'Julia': ['julia_ver0', 'julia_ver1'], 'Maple': ['maple'], 'Mathematica': ['mathematica'], 'Matlab': ['matlab'],
           'Numpy': ['numpy', 'numpymemmap'], 'Python': ['python'], 'R': ['R'], 'Scilab': ['scilab']}
@@ -232,7 +232,6 @@ def _exec_prog(ctx, spec):
         churn = spec.get('churn')
         churn = 'grow-shrink-grow' if churn is True else churn
         pargs = dict(abspath=(pm == 'abs'), basepath=(bparg if pm == 'base' else None))    # exactly the final question
-        stale = None
         if churn == 'grow-shrink-grow' and shape[0] >= 2:
             # reach the same state through a history on one live handle (grow, ask for code, shrink, grow differently)
             out.cls('after-history-on-live-handle')
@@ -253,15 +252,6 @@ def _exec_prog(ctx, spec):
             a = darr.asarray(apath, ref[:1], accessmode='r+')
             a.readcode(lang, **pargs)
             a.append(ref[1:])
-        elif churn == 'stale-handle' and shape[0] >= 2:
-            # a second handle opened (and asked) before the array was changed through the first one
-            out.cls('after-history-on-live-handle', 'churn:stale-handle')
-            w = darr.asarray(apath, np.concatenate([ref[:1], ref[:1]]).astype(ref.dtype), accessmode='r+')
-            stale = darr.Array(apath)
-            stale.readcode(lang, **pargs)
-            darr.truncate_array(w, 1)
-            w.append(ref[1:])
-            a = stale
         else:
             a = darr.asarray(apath, ref)
         if spec.get('via') == 'symlink-dotdot':
@@ -385,7 +375,7 @@ def prog_specs(seeds=(1,)):
     for t, shape, lang in itertools.product(NUMTYPES, [(4,), (3, 2)], LANGS):
         yield {'f': 'prog', 't': t, 'bo': '>', 'shape': list(shape), 'lang': lang, 'pm': 'rel', 'seed': 1, 'churn': True}
     for t, shape, lang, pm, churn in itertools.product(['int32', 'float16', 'complex128'], [(4,), (3, 2)], LANGS, PATHMODES,
-                                                       ['ask-trunc-ask', 'ask-append-ask', 'stale-handle']):
+                                                       ['ask-trunc-ask', 'ask-append-ask']):
         yield {'f': 'prog', 't': t, 'bo': '<', 'shape': list(shape), 'lang': lang, 'pm': pm, 'seed': 4, 'churn': churn}
     for t, shape, lang in itertools.product(['int16', 'float64', 'complex64'], [(3,), (3, 2)], LANGS):
         yield {'f': 'prog', 't': t, 'bo': '<', 'shape': list(shape), 'lang': lang, 'pm': 'base', 'seed': 2, 'via': 'base-symlink-dotdot'}
@@ -405,7 +395,7 @@ def st_prog(draw):
     rank = draw(st.integers(1, 4))
     return {'f': 'prog', 't': draw(st.sampled_from(NUMTYPES)), 'bo': draw(st.sampled_from('<>')),
             'shape': [draw(st.integers(1, 6)) for _ in range(rank)], 'lang': draw(st.sampled_from(LANGS)),
-            'pm': draw(st.sampled_from(PATHMODES)), 'seed': draw(st.integers(0, 2 ** 20)), 'churn': draw(st.sampled_from([None, None, True, 'ask-trunc-ask', 'ask-append-ask', 'stale-handle'])),
+            'pm': draw(st.sampled_from(PATHMODES)), 'seed': draw(st.integers(0, 2 ** 20)), 'churn': draw(st.sampled_from([None, None, True, 'ask-trunc-ask', 'ask-append-ask'])),
             'via': draw(st.sampled_from([None, None, 'symlink-dotdot', 'relative', 'base-symlink-dotdot']))}
 
 
